@@ -167,7 +167,10 @@ class VSocket:
             if getattr(self.k, "fin_menu", False) and n > 1 and not self.peer_closed:
                 # short write while the peer half-closes (FIN arrives; the peer keeps reading)
                 opts += ["one+peer-fin"]
-            c = s.choose(len(opts), "env")
+            only = getattr(self.k, "send_opts", None)
+            if only:
+                opts = [x for x in opts if x in only]  # a scenario may offer a smaller menu (stated in its evidence)
+            c = s.choose(len(opts), "env") if len(opts) > 1 else 0
             o = opts[c]
             if o == "one+peer-fin":
                 accept = 1
